@@ -12,6 +12,9 @@ import (
 	"github.com/modernizing/coca/pkg/application/api"
 	"github.com/modernizing/coca/pkg/adapter/cocafile"
 	"github.com/modernizing/coca/pkg/application/bs"
+	"github.com/modernizing/coca/pkg/application/concept"
+	"github.com/modernizing/coca/pkg/application/count"
+	"github.com/modernizing/coca/pkg/application/evaluate"
 	"github.com/modernizing/coca/pkg/application/tbs"
 	"github.com/modernizing/coca/pkg/domain/bs_domain"
 	"github.com/modernizing/coca/pkg/domain/core_domain"
@@ -156,5 +159,43 @@ func init() {
 			out = append(out, L(A(r.Type), A(strings.TrimPrefix(strings.TrimPrefix(r.FileName, dir), "/")), N(r.Line)))
 		}
 		return L(out...)
+	})
+}
+
+func sxCounts(m map[string]int) Sx {
+	keys := make([]string, 0, len(m))
+	for k := range m {
+		keys = append(keys, k)
+	}
+	sort.Strings(keys)
+	out := []Sx{}
+	for _, k := range keys {
+		out = append(out, L(A(k), N(m[k])))
+	}
+	return L(out...)
+}
+
+func init() {
+	// ("count" model) -> reference counts ; ("java" ((relpath text) ...)) -> (counts summary concept)
+	register("C18", func(in Sx) Sx {
+		if in.Nth(0).Str() == "count" {
+			return sxCounts(count.BuildCallMap(modelOf(in.Nth(1))))
+		}
+		dir := writeTree(in.Nth(1))
+		defer os.RemoveAll(dir)
+		identApp := javaapp.NewJavaIdentifierApp()
+		idents := identApp.AnalysisPath(dir)
+		fullApp := javaapp.NewJavaFullApp()
+		deps := fullApp.AnalysisPath(dir, idents)
+		res := evaluate.NewEvaluateAnalyser().Analysis(deps, idents)
+		nullable := append([]string{}, res.Nullable.Items...)
+		sort.Strings(nullable)
+		words := []Sx{}
+		for _, p := range concept.NewConceptAnalyser().Analysis(&deps) {
+			words = append(words, L(A(p.Key), N(p.Value)))
+		}
+		return L(sxCounts(count.BuildCallMap(deps)),
+			L(N(res.Summary.ClassCount), N(res.Summary.MethodCount), N(res.Summary.StaticMethodCount), N(res.Summary.UtilsCount), Strs(nullable)),
+			L(words...))
 	})
 }
